@@ -32,16 +32,16 @@ type HostileItem struct {
 }
 
 type HostileResult struct {
-	Attempts  int            `json:"attempts"`
-	Total     int            `json:"total"` // number of substitutions that exist for this (state, kind)
-	Panics    int            `json:"panics"`
-	Rejected  int            `json:"rejected"`
-	Accepted  int            `json:"accepted"` // state changed legitimately
-	Rebuilds  int            `json:"rebuilds"`
-	Twins     int            `json:"twins"`
-	Viol      []ev.Violation `json:"viol,omitempty"`
-	Samples   []string       `json:"samples,omitempty"`
-	Outcomes  map[string]int `json:"outcomes"`
+	Attempts int            `json:"attempts"`
+	Total    int            `json:"total"` // number of substitutions that exist for this (state, kind)
+	Panics   int            `json:"panics"`
+	Rejected int            `json:"rejected"`
+	Accepted int            `json:"accepted"` // state changed legitimately
+	Rebuilds int            `json:"rebuilds"`
+	Twins    int            `json:"twins"`
+	Viol     []ev.Violation `json:"viol,omitempty"`
+	Samples  []string       `json:"samples,omitempty"`
+	Outcomes map[string]int `json:"outcomes"`
 }
 
 // c08 scenario: static3, 30 fair steps (blocks exist), then node 1 learns news node 0 lacks.
@@ -438,11 +438,13 @@ func encodeRPC(typ byte, v interface{}) []byte {
 
 type dummyStream struct{}
 
-func (dummyStream) Accept() (stdnet.Conn, error)                         { select {} }
-func (dummyStream) Close() error                                         { return nil }
-func (dummyStream) Addr() stdnet.Addr                                    { return nil }
-func (dummyStream) Dial(string, time.Duration) (stdnet.Conn, error)      { return nil, fmt.Errorf("no dial") }
-func (dummyStream) AdvertiseAddr() string                                { return "harness" }
+func (dummyStream) Accept() (stdnet.Conn, error) { select {} }
+func (dummyStream) Close() error                 { return nil }
+func (dummyStream) Addr() stdnet.Addr            { return nil }
+func (dummyStream) Dial(string, time.Duration) (stdnet.Conn, error) {
+	return nil, fmt.Errorf("no dial")
+}
+func (dummyStream) AdvertiseAddr() string { return "harness" }
 
 func runBytes(it HostileItem, res *HostileResult) {
 	start := it.From
